@@ -105,15 +105,19 @@ CHECKS = {
    technique="Lean 4 proof + model/implementation differential check + independent trace oracle",
    ref="DESIGN.md section 5 C11"),
  "C14": dict(engine="sig",
-   text="Lean 4: C14_converges_partial, by induction over every list of join/leave/change/deliver steps of an abstract membership machine in which announcements are "
-        "queued in the order the state changes (the synchronous discipline): at quiescence the fold of each member's delivered events equals the group's membership and "
-        "attributes; C14_no_cross_group on the concrete world model (a user event is only ever pushed to members of the group it is about); proved counterexamples "
+   text="Lean 4: C14_world_converges_partial on the CONCRETE executable world model (the one the differential run ties to webclient.go/group.go): an invariant WInv holds along "
+        "every schedule of client messages (every join/leave with every outcome, chat, lock, kick, clearchat, …), action-loop iterations of any client and connection drops, "
+        "the world never crashes, and in every quiescent world every web member's list — the protocol.js fold of the `user` messages written to it since it joined — equals the "
+        "group's membership with current username, permissions and data (no ghost, no missing entry, no stale attribute); C14_world_setdata_sequential (a data change whose "
+        "broadcast is not detached preserves the invariant); C14_converges_partial on the abstract membership machine; C14_no_cross_group; proved counterexamples "
+        "C14_world_converges_false_overtake (P17 on the world model itself), "
         "C14_converges_false_overtake (two change announcements released from detached goroutines can overtake each other: known finding P17) and "
         "C14_converges_false_ghost (the pre-fix redirect join).  The real code is tied by the differential run and by an oracle that, at every quiescent point of a "
         "generated session, compares each real client's accumulated user list with the real group's membership",
-   note=TB + "The convergence theorem is about the abstract Membership model and is `_partial`: it assumes announcements are enqueued in state-change order, which the code "
-        "guarantees for join/leave (under the group lock) but not for permission/data changes (known finding P17). Delivery is modelled as a FIFO per member (unbounded "
-        "channel, C13).",
+   note=TB + "`_partial`: the step language of the world theorem leaves out the messages that change permissions or a user's data (announced from a detached goroutine: the full "
+        "statement is false for them, known finding P17, proved counterexample) and offer/record/maketoken/edittoken (unrelated to the lists; `record` because the model's "
+        "fresh-id counter is not kept distinct from client-chosen ids). WInv assumes the repairs P12/P18 (in currentFixes). Delivery is modelled as a FIFO per member (unbounded "
+        "channel, C13); `drop` in the theorem is a stated copy of the engine's op.",
    technique="Lean 4 proof + model/implementation differential check + independent trace oracle",
    ref="DESIGN.md section 5 C14"),
  "C15": dict(engine="sig+group",
